@@ -111,3 +111,19 @@ func vt_C17_sharedOptions() string {
 	vTraceEnd("t")
 	return vAns(&root, err)
 }
+
+// one typed root document and one cache, both shared and already used by an earlier, finished call (the way
+// go-openapi/validate works): every call sets the root pseudo-document again (an existing key), and every
+// call reads the root — through a pointer that ends on a schema held by reference inside it — without
+// writing to it
+const vC17RootDoc = `{"swagger":"2.0","info":{"title":"t","version":"1"},"paths":{},"definitions":{"A":{"description":"a","not":{"description":"n","properties":{"x":{"$ref":"#/definitions/B"}}}},"B":{"description":"b"}}}`
+
+func vt_C17_sharedRootWarmCache() string {
+	root, c := vSharedRootAndCache()
+	var s Schema
+	_ = json.Unmarshal([]byte(`{"items":{"$ref":"#/definitions/A/not"}}`), &s)
+	vTraceBegin()
+	err := ExpandSchema(&s, root, c)
+	vTraceEnd("t")
+	return vAns(&s, err)
+}
